@@ -1,4 +1,5 @@
 """C04 - already-canonical URLs are left untouched."""
+from ..rules.kindrules import k1, k2_k3, make_kinds
 from .common import quoter_audits, table_checks
 
 META = {}
@@ -14,5 +15,8 @@ def run(ctx):
         "canonicalisation (C16/C17).")
     pols, cfgs = quoter_audits(ctx, ch2=False)   # the dropped-surrogate clause (CH2) belongs to C01/C05
     table_checks(ctx, pols, cfgs, {"upper", "lower", "pct", "protect", "stable"})
+    K = make_kinds(ctx.model)
+    k2_k3(ctx, K)       # the parsing constructor applies requoters (not the escaping quoters) to the text it cuts out
+    k1(ctx, K, only={"_url.encode_url"})
     ctx.extra["exhaustive_tables"] = {f"{b}:{n}": {"literal": "".join(sorted(p["literal"])), "decodable": "".join(sorted(p["decodable"]))}
                                       for b, d in pols.items() for n, p in d.items()}
